@@ -26,7 +26,11 @@ def main(argv):
     job = {"n": n_req, "model_exe": v3exe, "seed": c.seed,
            "configs": [{"user": "ud", "auth": ["md5", 2, "22" * 16], "priv": ["des", 2, "33" * 16]},
                        {"user": "ue", "auth": ["sha1", 0, b"authpass12".hex()], "priv": ["aes", 0, b"privpass12".hex()]},
-                       {"user": "uf", "auth": ["sha1", 2, "66" * 20], "priv": ["des", 1, "77" * 20]}]}
+                       {"user": "uf", "auth": ["sha1", 2, "66" * 20], "priv": ["des", 1, "77" * 20]},
+                       # engine id discovered; in the second the first discovery probe is lost and the entry is retried
+                       {"user": "ug", "auth": ["md5", 1, "88" * 16], "priv": ["aes", 0, b"privpass34".hex()], "discover": "ok", "n": 60},
+                       {"user": "uh", "auth": ["sha1", 0, b"authpass56".hex()], "priv": ["des", 2, "99" * 20], "discover": "lost", "n": 60},
+                       {"user": "ui", "auth": ["md5", 2, "aa" * 16], "priv": ["aes", 1, "bb" * 16], "discover": "lost", "n": 60}]}
     res, log = vf.run_api_worker("C14", job, timeout=3000)
     if res is None:
         c.errors.append("API worker failed: " + log[-2000:])
@@ -87,7 +91,9 @@ def api_main(g, job):
     for cfg in job["configs"]:
         eng = "80001f8880c0ffee%02x" % rng.randrange(256)
         boots0 = rng.randrange(2 ** 31)
-        sc = {"version": "v3", "mode": "sync", "timeout": 0.01, "v3": dict(cfg, engine_id=eng, agent_engine_id=eng, boots=boots0, time=77)}
+        disc = cfg.get("discover")
+        sc = {"version": "v3", "mode": rng.choice(["sync", "async"]) if disc else "sync", "timeout": 0.01 if not disc else 0.05,
+              "v3": dict({k: v for k, v in cfg.items() if k not in ("discover", "n")}, engine_id=None if disc else eng, agent_engine_id=eng, boots=boots0, time=77)}
         keys = scen.V3Keys(sc["v3"], bytes.fromhex(eng))
         state = {"reply": True, "boots": boots0, "req": []}
 
@@ -96,6 +102,11 @@ def api_main(g, job):
             if not state["reply"]:
                 return []
             q = scen.parse_request(data, keys, model)
+            if q.get("engine_id") == b"" and not q.get("user"):
+                # engine-id discovery by a session that holds no key yet: the only message allowed in clear
+                state["probes"] = state.get("probes", 0) + 1
+                state["req"].pop()
+                return [(0, scen.build_reply({"pdu_tag": 0xA8, "mac": "absent", "encrypt": "no", "flags": 0}, q, sc, keys, model, rng))]
             if rng.random() < 0.02:
                 state["boots"] += 1
             return [(0, scen.build_reply({"vbs": ber.varbind(ber.enc_oid([1, 3, 6, 1, 9]), ber.enc_value("int", 1)).hex(), "boots": state["boots"]},
@@ -103,14 +114,23 @@ def api_main(g, job):
         agent = apilib.Agent(handler)
         sess = scen.Session(g, sc, agent, model)
         rec = {"config": cfg, "salts": [], "boots": [], "ops": [], "problems": [], "timeouts": 0}
-        sess.op("refresh", [])
+        if disc == "lost":
+            state["reply"] = False
+            r0 = sess.op("refresh", [])
+            state["reply"] = True
+            state["req"] = []
+            if r0["kind"] != "EXC":
+                rec["problems"].append({"key": "refresh-without-reply", "what": "refresh returned although nothing was answered"})
+        r0 = sess.op("refresh", [])
+        if r0["kind"] != "RET":
+            rec["problems"].append({"key": "entry-failed", "what": "session entry failed: %s" % r0.get("exc")})
         cur_boots = boots0
         agent.take()
         first = list(state["req"])       # the refresh probes of session entry are messages of this key installation too
         state["req"] = []
         i = 0
         pending_first = first
-        while len(rec["salts"]) < job["n"]:
+        while len(rec["salts"]) + len(rec["problems"]) < cfg.get("n", job["n"]):
             i += 1
             op = rng.choice(["get", "get", "get_many", "getnext", "getbulk", "refresh"]) if i > 1 else "first"
             arcs = [1, 3, 6, 1, 4, 1, 99999, rng.randrange(2 ** 32), rng.randrange(2 ** 20), i % 128]
